@@ -150,7 +150,7 @@ def make_machine(col, sub, tier):
             self.pts = []
             self.dead = None
 
-        @initialize(c=gen.run_case(names=QUERY_ALGOS, T_max=60, n_range=(100, 200), laws=["peak", "peakpos", "bump"],
+        @initialize(c=gen.run_case(names=QUERY_ALGOS, T_max=60, n_range=(100, 200), laws=["peak", "peakpos", "bump", "ties", "const", "peak"],
                                    poo_ok_only=True, script_prob=0.2, T_min=60, full_T_prob=1.0))
         def init(self, c):
             self.case = c
